@@ -545,6 +545,9 @@ type propDef struct {
 	level       string
 	batches     []batch
 	crashIsViol bool
+	// a run that makes no progress for the whole wall-clock watchdog counts against the property (the
+	// properties that say "never a hang"): an endless loop in the code under test is one
+	stuckIsViol bool
 	memKB       int64
 	nofile      int
 	jobWall     time.Duration
@@ -569,16 +572,17 @@ func init() {
 			{name: "manyfiles", params: map[string]string{"many": "1"}, quick: 16, thorough: 300, chunk: 1},
 			{name: "bufedge", params: map[string]string{"bufedge": "1"}, quick: 500, thorough: 20000}},
 		rule:    "each evaluation is one simulated end-to-end transfer (generated source tree x configuration vector x transport profile x schedule) on a fault-free link; non-trivial = both sides reported success and the file-system oracle compared every transferred entry; distinct = distinct (configuration class, schedule-trace hash) pairs"})
-	reg(&propDef{id: "C02", level: "exploration", crashIsViol: false,
+	reg(&propDef{id: "C02", level: "exploration", crashIsViol: false, stuckIsViol: true,
 		batches: []batch{{name: "bytefaults", quick: 3000, thorough: 60000},
 			{name: "enumerated", quick: 2, thorough: 60, enumKinds: 5, enumPos: 6, enumBases: 60},
 			{name: "enumerated-resume", params: map[string]string{"resume": "1"}, quick: 6, thorough: 80, enumKinds: 5, enumPos: 6, enumBases: 80},
 			{name: "dataflips", params: map[string]string{"dataflips": "1"}, quick: 2, thorough: 16, enumKinds: 1, enumDense: 700, enumDenseMin: 161, enumBases: 16},
 			{name: "bitflips", params: map[string]string{"resume": "1"}, quick: 2, thorough: 12, enumKinds: 1, enumDense: 160, enumBases: 12}},
 		rule:    "each evaluation is one simulated transfer (1-3 small files, protocols 1-4, base64/binary/compressed/escaped, resume with hash exchange) in which 1-3 byte-level faults (bit flip, deletion, duplication, insertion, truncation) are applied to tape-chosen chunks and positions (biased to the structural bytes of a line) of either direction of one hop; non-trivial = at least one fault actually altered bytes and both roles ended; distinct = distinct (configuration + fault placement class, schedule-trace hash, tape hash); batches enumerated / enumerated-resume: one run per (write of one hop x fault kind x structural position) of a base scenario; batch bitflips: one run per bit of every byte of each control line (<= 160 bytes) of a resumed transfer"})
-	reg(&propDef{id: "C11", level: "exploration", crashIsViol: false,
+	reg(&propDef{id: "C11", level: "exploration", crashIsViol: false, stuckIsViol: true,
 		batches: []batch{{name: "flowfaults", quick: 2600, thorough: 60000},
-			{name: "enumerated", quick: 3, thorough: 80, enumKinds: 13, enumPos: 1, enumBases: 80}},
+			{name: "enumerated", quick: 3, thorough: 80, enumKinds: 13, enumPos: 1, enumBases: 80},
+			{name: "slowdisk", params: map[string]string{"slowdisk": "1"}, quick: 32, thorough: 600}},
 		rule:    "each evaluation is one simulated transfer in which, after the ACT has been written towards the server, one fault is injected at a tape-chosen message: a direction (or both) goes silent, a link closes or starts failing writes, a destination write fails (optionally after a short write), a source read fails, the source file shrinks under the reader, or one process is stalled for T/2, 1.5T or 3T; non-trivial = the fault fired and termination, reports, fail lines and the goroutine-leak monitor were all evaluated; distinct = distinct (configuration + fault kind + hop, schedule-trace hash, tape hash)"})
 	reg(&propDef{id: "C09", level: "exploration", crashIsViol: false,
 		batches: []batch{{name: "names", params: map[string]string{"mode": "system"}, quick: 1600, thorough: 60000},
@@ -586,10 +590,11 @@ func init() {
 		rule: "batch names: one simulated transfer between the real sender and the real receiver in which a link rewriter replaces the name in one NAME message (plain name, or the JSON path list in directory / protocol >= 3 mode) by a hostile one ('..' in any position, embedded '/', absolute path, empty element, over-long, '\\'), x -y x -d x protocols 1-4 x both receiving roles; batch archive: the real archive writer fed an entry header with a hostile path list; oracle: snapshot of the destination's parent (canary file, sibling directory) before/after - nothing outside the destination created, modified or removed; non-trivial = a hostile name was injected and the snapshot compared; distinct = distinct (configuration + injected name, schedule-trace hash, tape hash)"})
 	reg(&propDef{id: "C12", level: "exploration", crashIsViol: true, memKB: 8 << 20,
 		batches: []batch{{name: "fields", quick: 3000, thorough: 120000},
+			{name: "relayhs", params: map[string]string{"relayhs": "1"}, quick: 1200, thorough: 40000},
 			{name: "archive", params: map[string]string{"mode": "archive"}, quick: 1500, thorough: 60000},
 			{name: "terminal", params: map[string]string{"mode": "terminal"}, quick: 1200, thorough: 40000}},
 		rule:    "each evaluation is one simulated transfer in which a link rewriter replaces the payload of 1-3 tape-chosen protocol lines sent to the attacked role (server or client) by boundary values: numbers (-1, 0, +-1 of the expected, 2^31, 2^62, 2^63-1, non-numeric, oversized), broken base64/zlib, truncated or wrongly typed JSON, hostile known fields; with and without a progress display, terminal widths 6-80; oracles: no panic/fatal error in any goroutine (a crash of the worker process is attributed to the run and re-executed), allocation during the run <= 64 MiB + 16 x bytes moved, both roles end, no percentage outside 0..100 on the terminal, and a transparency probe in both directions passes afterwards; batch archive: hostile archive entry headers written to the real archive writer in tape-chosen segments; batch terminal: hostile terminal output in front of the idle client with the read boundary at tape-chosen or at every position; non-trivial = an edit fired (a hostile entry / read was fed) and all oracles ran; distinct = distinct (configuration + attacked role, schedule-trace hash, tape hash)"})
-	reg(&propDef{id: "C10", level: "exploration", crashIsViol: false,
+	reg(&propDef{id: "C10", level: "exploration", crashIsViol: false, stuckIsViol: true,
 		batches: []batch{{name: "stops", quick: 2400, thorough: 60000},
 			{name: "enumerated", quick: 4, thorough: 120, enumKinds: 6, enumPos: 1, enumBases: 120}},
 		rule:    "each evaluation is one simulated transfer stopped at a tape-chosen message after the handshake by one of: user Ctrl-C plus prompt keys through the real promptui prompt (keep / delete), the public StopTransferringFiles(bool), SIGINT or SIGTERM delivered to the server main; non-trivial = the stop fired and termination bound, reports, delete/keep semantics and bystander files were all evaluated; distinct = distinct (configuration + stop kind, schedule-trace hash, tape hash)"})
@@ -602,7 +607,7 @@ func init() {
 	reg(&propDef{id: "C19", level: "exploration", crashIsViol: true,
 		batches: []batch{{name: "zmodem", quick: 2000, thorough: 80000}},
 		rule:    "each evaluation is one real filter with zmodem enabled, a scripted remote rz/sz (start header within one read, optionally accompanied by a cancel sequence or 'cannot open'; then finishes, cancels early or late, keeps sending, or goes quiet) and a scripted local helper behind the os/exec substitute (normal, exits non-zero, exits at once, never writes, writes late, missing from PATH), upload with and without files to send, download, optional Ctrl-C early or late; all timers (100 ms start delay, 500 ms quiet timer, 20 s timeouts) run on the fake clock; oracles: matching helper and directory, started at most once, traffic bridged both ways in clean sessions, server told to cancel whenever the session did not complete, a silent helper cancelled or killed, vetoed headers start nothing and are shown, and after 26 s typed input reaches the server and a printed probe reaches the terminal; non-trivial = all of that evaluated; distinct = distinct (case class, schedule-trace hash, tape hash)"})
-	reg(&propDef{id: "C18", level: "exploration", crashIsViol: false,
+	reg(&propDef{id: "C18", level: "exploration", crashIsViol: false, stuckIsViol: true,
 		batches: []batch{{name: "pauses", quick: 2400, thorough: 60000},
 			{name: "enumerated", quick: 4, thorough: 120, enumKinds: 6, enumPos: 1, enumBases: 120}},
 		rule:    "each evaluation is one simulated transfer (protocol 3 or 4, T in {2,5,20} s) paused 1-3 times at tape-chosen messages by Ctrl-C and continued through the real prompt after a think time of 0.02T..3T; non-trivial = at least one pause/continue cycle completed and the outcome rules (short pause => success with identical files; long pause => success or error, never a hang or a wrong file) and the no-data-while-paused monitor were evaluated; distinct = distinct (configuration + pause band + cycles, schedule-trace hash, tape hash)"})
@@ -1166,6 +1171,8 @@ func main() {
 		for _, r := range crashes {
 			addViol(r)
 		}
+	}
+	if pd.crashIsViol || pd.stuckIsViol {
 		// a run that makes no progress for the whole wall-clock watchdog (endless loop, allocation
 		// storm) is a failure of the code under test for these properties, not of the framework
 		for _, r := range stuck {
